@@ -29,8 +29,8 @@ var ctxBG = context.Background()
 
 const (
 	soloDeadline  = 300 * time.Millisecond // a root whose solo resolution exceeds this is left out (recorded as to=)
-	laterDeadline = 4 * time.Second        // every later resolution of a root that finished solo
-	opBudget      = 14 * time.Second       // whole op; beyond it the op reports "timeout"
+	laterDeadline = 3 * time.Second        // every later resolution of a root that finished solo
+	opBudget      = 9 * time.Second        // whole op; beyond it the op reports "timeout"
 	maxConc       = 16
 )
 
@@ -262,14 +262,14 @@ func dumpClient(c resolve.Client, u *universe) string {
 }
 
 type histOut struct {
-	timeout                        bool
-	g0                             map[rootRef]string
-	live                           []rootRef // roots (in op order, with repetitions) whose solo run finished
-	dropped                        int
-	beforeAfter, hist, perm, conc  bool
-	skipped                        bool   // perm and conc not run because an earlier phase failed
-	firstBad                       string // first disagreement, human-readable
-	nontrivial                     int    // roots whose graph has an edge
+	timeout                       bool
+	g0                            map[rootRef]string
+	live                          []rootRef // roots (in op order, with repetitions) whose solo run finished
+	dropped                       int
+	beforeAfter, hist, perm, conc bool
+	skipped                       bool   // perm and conc not run because an earlier phase failed
+	firstBad                      string // first disagreement, human-readable
+	nontrivial                    int    // roots whose graph has an edge
 }
 
 // runHistory executes the op. phases: bit set of phases to run beyond G0
